@@ -52,6 +52,10 @@ theorem encode_len_val_none_eq :
 theorem encode_len_val_str_eq (s : PyObj.Str) :
     AutomaticRegistrationService.encode_len_val_str modelExt s = ofE id (Ars.lv (some s.utf8)) := lv_str_eq s
 
+/-- `encode_len_val(b)` for every `bytes` value (the third form of the `Union[bytes, str, None]` parameter) -/
+theorem encode_len_val_bytes_eq (d : Bytes) :
+    AutomaticRegistrationService.encode_len_val_bytes modelExt d = ofE id (Ars.lv (some d)) := lv_bytes_eq d
+
 /-- `read_len_val(data, idx)` for every byte string and natural read position (`IndexError` past the end) -/
 theorem read_len_val_eq (data : Bytes) (idx : Nat) :
     AutomaticRegistrationService.read_len_val modelExt data (idx : Int)
